@@ -48,7 +48,8 @@ def derive(ctx, rng):
     r = rng.random()
     if r < 0.8:
         spec = gen_spec(rng, PROF)
-        s = O.try_build(ctx, spec)
+        # refinements are declared in a random order (the DSL accepts any order, C11): the text must not depend on it
+        s = O.try_build(ctx, spec, order_rng=rng if rng.random() < 0.5 else None)
         return (spec, s, "dsl") if s is not None else None
     if r < 0.9:
         d1, d2 = gen_declared_dict(rng, PROF, depth=rng.randint(1, 3)), gen_declared_dict(rng, PROF, depth=rng.randint(1, 3))
